@@ -20,6 +20,7 @@ type Alloc struct {
 	Freed    bool
 	Huge     bool // stands for an allocation larger than modelled; out-of-range accesses are inconclusive
 	Tag      interface{} // front-end data (e.g. function for code addresses)
+	cow      bool        // Bytes shared with a snapshot: copy before writing
 }
 
 type Mem struct {
@@ -35,11 +36,7 @@ var zeroByte = smt.Const(8, 0)
 
 // Alloc creates a zeroed allocation of concrete size.
 func (mm *Mem) Alloc(size int, name string) *Alloc {
-	a := mm.AllocRaw(size, name)
-	for i := range a.Bytes {
-		a.Bytes[i] = zeroByte
-	}
-	return a
+	return mm.AllocRaw(size, name) // nil bytes read as zero
 }
 
 // AllocRaw creates an allocation whose bytes are nil (must be filled by caller).
@@ -230,6 +227,52 @@ func selectTree(a *Alloc, off *smt.Term, cs []int, j int) *smt.Term {
 	return smt.Ite(smt.Ult(off, smt.Const(64, uint64(cs[mid]))), l, r)
 }
 
+// own makes the byte slice private before a write.
+func (a *Alloc) own() {
+	if a.cow {
+		a.Bytes = append([]*smt.Term(nil), a.Bytes...)
+		a.cow = false
+	}
+}
+
+// MemSnap is a copy-on-write snapshot of a memory.
+type MemSnap struct {
+	allocs []*Alloc
+	next   uint64
+	nalloc int
+}
+
+// Snapshot freezes the current memory contents.
+func (mm *Mem) Snapshot() *MemSnap {
+	s := &MemSnap{next: mm.next, nalloc: mm.NAlloc}
+	for _, a := range mm.allocs {
+		c := *a
+		c.cow = true
+		a.cow = true
+		s.allocs = append(s.allocs, &c)
+	}
+	return s
+}
+
+// Restore replaces the memory by a copy of the snapshot and returns the
+// mapping from snapshot allocations to the fresh ones (by base address).
+func (mm *Mem) Restore(s *MemSnap, copyTag func(interface{}) interface{}) map[uint64]*Alloc {
+	mm.allocs = make([]*Alloc, len(s.allocs))
+	m := make(map[uint64]*Alloc, len(s.allocs))
+	for i, a := range s.allocs {
+		c := *a
+		c.cow = true
+		if copyTag != nil && c.Tag != nil {
+			c.Tag = copyTag(c.Tag)
+		}
+		mm.allocs[i] = &c
+		m[c.Base] = &c
+	}
+	mm.next = s.next
+	mm.NAlloc = s.nalloc
+	return m
+}
+
 func (a *Alloc) byteAt(i int) *smt.Term {
 	b := a.Bytes[i]
 	if b == nil {
@@ -277,6 +320,7 @@ func (mm *Mem) StoreBytes(a *Alloc, off *smt.Term, bs []*smt.Term, g *smt.Term, 
 			}
 			return
 		}
+		a.own()
 		for j := 0; j < n; j++ {
 			a.Bytes[o+j] = smt.Ite(g, bs[j], a.byteAt(o+j))
 		}
@@ -286,6 +330,7 @@ func (mm *Mem) StoreBytes(a *Alloc, off *smt.Term, bs []*smt.Term, g *smt.Term, 
 		mm.inRange(a, off, n, what)
 	}
 	cs := candidates(a, off, n)
+	a.own()
 	for _, o := range cs {
 		hit := smt.BAnd(g, smt.Eq(off, smt.Const(64, uint64(o))))
 		for j := 0; j < n; j++ {
